@@ -34,6 +34,9 @@ def reset():
         c.clear()
     POSITIVE.clear()
     NONNEG.clear()
+    # ZERO / ONE_V (module-level constants) keep node ids 0 and 1
+    node("c", Fraction(0))
+    node("c", Fraction(1))
 
 
 def new_sym(name, kind="input", **meta) -> int:
